@@ -226,3 +226,44 @@ func indexOf(s, sub string) int {
 }
 
 func init() { ZZHarnesses["ZZC03Or"] = ZZC03Or }
+
+// ZZC03KeyAlt: a key shortcut whose type is an or shortcut of string types: a document key is
+// admitted iff one of the alternatives admits it - the first or a later one - and each key is
+// judged on its own.
+func ZZC03KeyAlt() {
+	order := v.Choose(0, 1)
+	body := []string{"@ka | @kb", "@kb | @ka"}[order]
+	s := jschema.New("s", "{\n  @kk: 1\n}")
+	v.Assert(s.AddType("@kk", jschema.New("@kk", body)) == nil, "C03/addtype-failed")
+	v.Assert(s.AddType("@ka", jschema.New("@ka", `"a1" // {regex: "^a"}`)) == nil, "C03/addtype-failed")
+	v.Assert(s.AddType("@kb", jschema.New("@kb", `"b1" // {regex: "^b"}`)) == nil, "C03/addtype-failed")
+	v.Assert(s.Check() == nil, "C03/case-rejected-by-check")
+	n := v.Choose(1, 2)
+	doc := bs("{")
+	ok := true
+	for i := 0; i < n; i++ {
+		// concrete first letters: the key types are regex rules, and RE2 matching of symbolic text is
+		// an uninterpreted predicate in the engine
+		c := []byte("abcd")[v.Choose(0, 3)]
+		if i > 0 {
+			doc = append(doc, ',')
+		}
+		doc = cat(doc, bs(`"`), []byte{c, byte('1' + i)}, bs(`":`), []byte{byte('5' + i)})
+		if c != 'a' && c != 'b' {
+			ok = false
+		}
+	}
+	doc = append(doc, '}')
+	v.Observe("keytype", body)
+	v.Observe("doc", doc)
+	verr := s.Validate(json.New("d", doc))
+	if ok {
+		v.Reach("C03/keyalt-accept")
+		v.Assert(verr == nil, "C03/member-of-the-union-rejected")
+	} else {
+		v.Reach("C03/keyalt-reject")
+		v.Assert(verr != nil, "C03/non-member-accepted")
+	}
+}
+
+func init() { ZZHarnesses["ZZC03KeyAlt"] = ZZC03KeyAlt }
